@@ -108,6 +108,9 @@ func (bw *BatchedWriter) startBatchWriter() {
 	bw.startStopMutex.Lock()
 	if !bw.running.Load() {
 		bw.running.Store(true)
+		// register the writer before it is started, so that a StopBatchWriter that follows
+		// immediately waits for it (WaitGroup.Add must happen before the Wait it is paired with).
+		bw.writeWg.Add(1)
 		go bw.runBatchWriter()
 	}
 	bw.startStopMutex.Unlock()
@@ -164,8 +167,6 @@ func (bw *BatchedWriter) Flush() {
 
 // runBatchWriter collects objects in batches and persists them to the KVStore.
 func (bw *BatchedWriter) runBatchWriter() {
-	bw.writeWg.Add(1)
-
 	for bw.running.Load() || bw.scheduledCount.Load() != 0 {
 		batchedMutation, err := bw.store.Batched()
 		if err != nil {
